@@ -67,10 +67,11 @@ func (p *ParserPlanner) Process(ctx *shared.PlannerContext,
 				labels[k] = v
 			}
 			labels, err := parser(entry.Message, &labels)
-			if err != nil {
-				return nil
+			if err == nil {
+				entry.Labels = labels
 			}
-			entry.Labels = labels
+			// also for a line that was left as it is: downstream stages group by this fingerprint, and two entries
+			// with one label set must not end up with a stored and a recomputed one
 			entry.Fingerprint = fingerprint(entry.Labels)
 			return nil
 		},
